@@ -370,7 +370,8 @@ def cZ(n):
 
 ERR_CTOR = {"bad_regex": "EBadRegex", "unknown_key": "EUnknownKey", "unknown_input": "EUnknownInput", "anno_format": "EAnnoFormat",
             "anno_key": "EAnnoKey", "len_mismatch": "ELenMismatch", "pol_type": "EPolType", "pol_count": "EPolCount",
-            "pol_not": "EPolNot", "pol_format": "EPolFormat", "pol_atoi": "EPolAtoi", "pol_unknown": "EPolUnknown"}
+            "pol_not": "EPolNot", "pol_format": "EPolFormat", "pol_atoi": "EPolAtoi", "pol_unknown": "EPolUnknown",
+            "sel_empty": "ESelEmpty", "sel_range": "ESelRange"}
 KIND_CTOR = {"random": "PRandom", "fixed": "PFixed", "min_avg10": "PMinAvg10", "min_moving_avg": "PMinMovingAvg", "min": "PMinLast"}
 
 
@@ -407,11 +408,51 @@ def case_to_coq(c, r, sp):
         ipol = "(Err %s)" % ERR_CTOR[r["perr"]]
     else:
         ipol = "(Ok (%s, %s))" % (KIND_CTOR[r["policy"]["kind"]], cZ(r["policy"]["index"]))
-    return "(mkCase %s\n  %s\n  %s\n  %s\n  %s\n  %s\n  %s %s)" % (pool, lines, annos, cpol, clist(res), clist(durs), impl, ipol)
+    fx = r.get("fixed")
+    if not fx:
+        ifx = "None"
+    elif fx.get("err"):
+        ifx = "(Some (Err %s))" % ERR_CTOR[fx["err"]]
+    else:
+        ifx = "(Some (Ok %d%%N))" % fx["idx"]
+    return "(mkCase %s\n  %s\n  %s\n  %s\n  %s\n  %s\n  %s %s %s)" % (pool, lines, annos, cpol, clist(res), clist(durs), impl, ipol, ifx)
 
 
-SPEC_CODES = (2, 5, 9, 10)
-MODEL_CODES = (1, 4, 7, 8)
+# ----------------------------------------------------------------------------------------------
+# translator: the string constants the code switches on, read from the sources on every run
+# ----------------------------------------------------------------------------------------------
+CONST_SOURCES = [
+    ("component/outbound/filter.go", ["FilterInput_Name", "FilterInput_SubscriptionTag", "FilterKey_Name_Regex",
+                                      "FilterKey_Name_Keyword", "FilterInput_SubscriptionTag_Regex"]),
+    ("component/outbound/dialer/annotation.go", ["AnnotationKey_AddLatency"]),
+    ("common/consts/dialer.go", ["DialerSelectionPolicy_Random", "DialerSelectionPolicy_Fixed", "DialerSelectionPolicy_MinAverage10Latencies",
+                                 "DialerSelectionPolicy_MinMovingAverageLatencies", "DialerSelectionPolicy_MinLastLatency"]),
+]
+
+
+def translate_consts():
+    lines = ["(* GENERATED by tools/c14.py from the Go sources on every run - do not edit. *)",
+             "From Coq Require Import String.", "Open Scope string_scope.", ""]
+    missing = []
+    for rel, names in CONST_SOURCES:
+        try:
+            src = open(os.path.join(vlib.REPO, rel)).read()
+        except OSError:
+            src = ""
+        for n in names:
+            m = re.search(r"^\s*" + re.escape(n) + r"\b[^=\n]*=\s*\"([^\"\\\n]*)\"", src, re.M)
+            if not m:
+                missing.append(rel + ":" + n)
+                val = "<missing>"
+            else:
+                val = m.group(1)
+            lines.append('Definition go_%s : string := "%s".  (* %s *)' % (n, val, rel))
+    vlib.write_if_changed(os.path.join(vlib.COQ, "gen", "C14_Consts.v"), "\n".join(lines) + "\n")
+    return missing
+
+
+SPEC_CODES = (2, 5, 9, 10, 12)
+MODEL_CODES = (1, 4, 7, 8, 11)
 THM_CODES = (3, 6)
 
 
@@ -446,6 +487,11 @@ def run_batch(sc, binary, cases, tag):
             bad.append(8)
         if any(a < 0 for a, b in (r.get("members") or [])):
             bad.append(9)      # a member that is not a pool node / has no annotation
+        fx = r.get("fixed")
+        if fx and (fx.get("err") == "other" or (fx.get("err") and fx["err"] not in ERR_CTOR)):
+            bad.append(8)
+        if fx and fx.get("group"):
+            bad.append(9)      # the DialerGroup does not hold the members/annotations FilterAndAnnotate returned
         if r.get("text") and r["text"] != "same":
             bad.append(10)     # the production parser reads the configuration text as a different definition
         if bad:
@@ -463,7 +509,7 @@ def run_batch(sc, binary, cases, tag):
                 "Definition cases : list obs_case := [\n" + ";\n".join(terms[i] for i in idx) + "\n].\n"
                 "Definition R := Eval vm_compute in map check_case cases.\nPrint R.\n"
                 "Definition S := Eval vm_compute in map case_signature cases.\nPrint S.\n")
-        ok, outtxt = vlib.coq_eval("C14_cases_%s" % tag, text)
+        ok, outtxt = vlib.coq_eval("C14_cases_%s" % tag, text, timeout=400)
         if not ok:
             return None, None, None, "coq evaluation failed: " + outtxt[-3000:]
         m = re.search(r"R\s*=\s*(.*?)\n\s*:\s*list", outtxt, re.S)
@@ -552,6 +598,8 @@ def matcher_ids(case, result, codes):
         ids.append("panic")
     if 2 in codes:
         ids.append("group.impl_%s" % (("err_" + result.get("err")) if result.get("err") else "ok"))
+    if 12 in codes:
+        ids.append("fixed.impl_%s" % ((result.get("fixed") or {}).get("err") or "ok"))
     if 10 in codes:
         ids.append("text." + (result.get("text") or "").split(":")[0])
     if 5 in codes:
@@ -565,6 +613,7 @@ def main(argv):
     rng = vlib.rng_for(args.seed, PID)
     n_cases = 600 if args.tier == "quick" else 12000
 
+    missing_consts = translate_consts()
     proof_ok, pinfo = vlib.proof_stage(out, PROPS, TARGETS)
     cov = {"obligations": pinfo["obligations"], "discharged": pinfo["discharged"],
            "checker_cmd": "cd /verif/coq && coq_makefile -f _CoqProject -o Makefile && make -j16 " + " ".join(TARGETS) + " && coqc -Q . Dae C14_Props.v (Print Assumptions captured)",
@@ -649,16 +698,18 @@ def main(argv):
                     what.append("group membership/annotation/error differs from the spec")
                 if 5 in codes:
                     what.append("policy validation differs from the spec")
+                if 12 in codes:
+                    what.append("fixed(i) does not select the i-th member of the group / out-of-range not reported")
                 if 10 in codes:
                     what.append("the production parser reads the group's configuration text as a different definition: " + str(res.get("text")))
                 if 9 in codes:
                     what.append("implementation panicked or returned a non-pool member")
                 out.violation("impl_vs_spec_" + "_".join(mids).replace(".", "-"),
                               {"case": wire_case(small), "readable": pretty_case(small),
-                               "implementation_answer": {k: res.get(k) for k in ("members", "err", "errmsg", "policy", "perr", "perrmsg", "panic", "text") if res.get(k) is not None},
+                               "implementation_answer": {k: res.get(k) for k in ("members", "err", "errmsg", "policy", "perr", "perrmsg", "fixed", "panic", "text") if res.get(k) is not None},
                                "codes": all_err[i], "original_case_index": i, "matchers": mids,
                                "how": "./check C14 --replay <this file>  (feeds the case to TestVerifC14 in component/outbound and evaluates model and spec in Coq); "
-                                      "codes: 2 group answer not allowed by spec, 5 policy answer not allowed by spec, 9 panic"},
+                                      "codes: 2 group answer not allowed by spec, 5 policy answer not allowed by spec, 9 panic / foreign member, 10 configuration text parsed differently, 12 fixed(i) selection wrong"},
                               "; ".join(what) + " (%d failing cases of this run)" % len(spec_fail), matchers=mids)
                 if len(seen) >= 4:
                     break
